@@ -15,6 +15,7 @@ import (
 
 var (
 	ErrAvgNonInteger        = errors.New("avg() requires non-NULL integer values")
+	ErrGroupByNotSelected   = errors.New("GROUP BY column is not in the select list")
 	ErrIncompatTypeCompare  = errors.New("incompatible type comparison")
 	ErrNonBoolJoinCond      = errors.New("non-boolean join condition")
 	ErrSortFieldNotFound    = errors.New("sort field is not in select list")
@@ -315,20 +316,27 @@ func aggregateRows(selectList sql.SelectList, groupBy []sql.ColumnReference, row
 		return emptyAggregateRow(selectList, rows)
 	}
 
-	// map columns to indexes on the select list
-	colToIdx := map[sql.ColumnReference]int{}
-	for idx, col := range selectList {
-		switch col := col.ValueExpressionPrimary.(type) {
-		case sql.ColumnReference:
-			colToIdx[col] = idx
+	// map GROUP BY columns to indexes on the select list. a GROUP BY column
+	// designates the select column it matches by name, qualifier or alias
+	var groupByIdxs []int
+	for _, groupByCol := range groupBy {
+		idx := -1
+		for i, col := range selectList {
+			if col.IsColumnReference() && col.Matches(groupByCol) {
+				idx = i
+				break
+			}
 		}
+		if idx == -1 {
+			return nil, fmt.Errorf("%w: %s", ErrGroupByNotSelected, groupByCol)
+		}
+		groupByIdxs = append(groupByIdxs, idx)
 	}
 
 	// generate keys for GROUP BY values
 	groupKey := func(row *storage.Row) string {
 		var key string
-		for _, groupByCol := range groupBy {
-			idx := colToIdx[groupByCol]
+		for _, idx := range groupByIdxs {
 			key += fmt.Sprintf("%v", row.Vals[idx])
 		}
 		return key
